@@ -310,7 +310,7 @@ class Runaway(BaseException):
     policy proper, at most 4000 trials): the run is cut and judged as not terminating."""
 
 
-MAX_SAMPLES = 300000
+MAX_SAMPLES = 100000
 
 
 def _proxy_classes():
